@@ -21,11 +21,11 @@ pub fn min_i32(a: i32, b: i32) -> (r: i32)
 //@end
 //@extract type Quat from src/core/utils.rs
 //@end
-//@extract struct Radians from src/coordinate_systems/base.rs
+//@extract struct Radians from src/coordinate_systems/base.rs attrs=keep
 //@end
-//@extract struct Spherical from src/coordinate_systems/spherical.rs
+//@extract struct Spherical from src/coordinate_systems/spherical.rs attrs=keep
 //@end
-//@extract enum Orientation from src/core/hilbert.rs
+//@extract enum Orientation from src/core/hilbert.rs attrs=keep
 //@end
 //@extract struct Origin from src/core/utils.rs
 //@end
